@@ -15,10 +15,11 @@ import (
 const c10Rule = "histories of 20..200 retrievals interleaved over 1..3 posting-list indexes (k-groups and compact, default/pattern/range fields) and a roaring index that share the process-wide collector and bitmap pools; about 15% of the retrievals fail (unsupported value on a known field), debug options on at random, plain Retrieve and recording-collector passes, roaring scanners reset or re-created; each answer is compared with the pure model and the specification in Coq, a tenth of them also with a freshly built real index, and every assignment is deep-copied before the call and compared after. Non-trivial = the history contains a failing retrieval followed by a successful one that returns documents; distinct = distinct input"
 
 type histCase struct {
-	Hist10 bool    `json:"hist10"`
-	Cases  []eCase `json:"cases"`
-	Rr     *rCase  `json:"rr,omitempty"`
-	Order  []int   `json:"order"` // which index performs the next retrieval (len(Cases) = the roaring one)
+	Hist10     bool    `json:"hist10"`
+	Cases      []eCase `json:"cases"`
+	Rr         *rCase  `json:"rr,omitempty"`
+	OneBuilder bool    `json:"one_builder,omitempty"` // the posting-list indexes are successive generations of ONE builder (Reset in between)
+	Order      []int   `json:"order"`                 // which index performs the next retrieval (len(Cases) = the roaring one)
 }
 
 var extraViolations []string
@@ -68,10 +69,18 @@ func execHist(raw json.RawMessage) (res execResult, err error) {
 		state string
 	}
 	var ls []*live
+	var oneBuilder *be.IndexerBuilder
 	for i := range h.Cases {
 		c := &h.Cases[i]
 		restore := installParsers(c.Parsers)
-		b := newBuilder(c)
+		var b *be.IndexerBuilder
+		if h.OneBuilder && oneBuilder != nil {
+			b = oneBuilder
+			b.Reset()
+		} else {
+			b = newBuilder(c)
+			oneBuilder = b
+		}
 		l := &live{c: c, obs: &e2eObs{}}
 		for j := range c.Docs {
 			var aerr error
@@ -238,6 +247,12 @@ func init() {
 					}
 					total += len(c.Queries)
 					h.Cases = append(h.Cases, c)
+				}
+				if ni > 1 && i%3 == 1 { // the indexes are successive generations of one builder: same kind, same configuration
+					h.OneBuilder = true
+					for k := range h.Cases {
+						h.Cases[k].Kind, h.Cases[k].Policy = h.Cases[0].Kind, h.Cases[0].Policy
+					}
 				}
 				rr := genRrCase(r, 1+r.Intn(3), 0, 30, 10+r.Intn(20), 1)
 				h.Rr = &rr
